@@ -71,6 +71,10 @@ def constructs(base, start, dt):
         # a time threshold exactly on a grid label: well defined (>= on equal floats) as long as every evaluation route
         # hands the equation the grid label itself
         "if_time_on_grid": ["if", ["bin", ">=", ["time"], ["num", F(s + 2 * d)]], ["num", 2.0], ["num", 0.5]],
+        # numeric literals with many decimal places / very small magnitude written directly into the equation
+        "lit_third": ["bin", "*", b, ["num", 0.3333333333333333]],
+        "lit_tiny": ["bin", "*", ["bin", "*", b, ["num", 2.5e-07]], ["num", 4000000.0]],
+        "lit_long": ["bin", "-", b, ["num", 1.23456789012]],
         "dt": ["bin", "*", b, ["dt"]],
         "starttime": ["bin", "+", b, ["starttime"]],
     }
